@@ -64,12 +64,13 @@ VARIABLES
     repseq,     \* ghost: scope -> ids in the order replies were emitted
     bad,        \* ghost: set of rule violations seen when they happened
     unsol,      \* ghost: number of unsolicited replies delivered
+    dropped,    \* ghost: requests that had arrived and were dropped unserved
     lbl, log
 
 vars == <<reqs, caller, waiters, c2s, s2c, sq, run, sent, got, lost, perr,
-          served, repseq, bad, unsol, lbl, log>>
+          served, repseq, bad, unsol, dropped, lbl, log>>
 view == <<reqs, caller, waiters, c2s, s2c, sq, run, sent, got, lost, perr,
-          served, repseq, bad, unsol>>
+          served, repseq, bad, unsol, dropped>>
 
 Scopes == (IF GlobalOn THEN {"g"} ELSE {}) \cup Chans
 Sides == {"r", "s"}
@@ -81,6 +82,13 @@ ScopeOf(i) == reqs[i].sc
 IsChan(sc) == sc \in Chans
 GoneAt(side, sc) == lost \/ (IsChan(sc) /\ sent[side][sc] /\ got[side][sc])
 ClosedBy(side, sc) == IsChan(sc) /\ sent[side][sc]
+\* requests that have arrived and whose handler has not been started
+NWaitingIn(sc) == Cardinality({k \in 1 .. Len(sq[sc]) : sq[sc][k] \notin run[sc]})
+RECURSIVE NWaitingSet(_)
+NWaitingSet(S) == IF S = {} THEN 0
+                  ELSE LET x == CHOOSE y \in S : TRUE
+                       IN  NWaitingIn(x) + NWaitingSet(S \ {x})
+NWaiting == NWaitingSet(Scopes)
 NSlow == Cardinality({i \in 1 .. Len(reqs) : reqs[i].kind = "slow"})
 
 Init ==
@@ -94,7 +102,7 @@ Init ==
     /\ lost = FALSE /\ perr = FALSE
     /\ served = [sc \in Scopes |-> <<>>]
     /\ repseq = [sc \in Scopes |-> <<>>]
-    /\ bad = {} /\ unsol = 0
+    /\ bad = {} /\ unsol = 0 /\ dropped = 0
     /\ lbl = <<"init">> /\ log = <<>>
 
 (***************************************************************************)
@@ -124,7 +132,7 @@ MakeRequest(sc, want, kind) ==
                                        [st |-> IF want THEN "fail" ELSE "none",
                                         by |-> 0])
            /\ lbl' = <<"make", sc, want, kind, i, open>>
-    /\ UNCHANGED <<s2c, sq, run, sent, got, lost, perr, served, repseq, bad,
+    /\ UNCHANGED <<dropped, s2c, sq, run, sent, got, lost, perr, served, repseq, bad,
                    unsol>>
 
 \* the task awaiting the reply is cancelled: the future is cancelled but stays
@@ -141,7 +149,7 @@ CancelCaller(i) ==
     /\ waiters' = [waiters EXCEPT ![ScopeOf(i)] =
                       IF CancelKeeps THEN MarkDead(@, i) ELSE RemoveId(@, i)]
     /\ lbl' = <<"cancel", i>>
-    /\ UNCHANGED <<reqs, c2s, s2c, sq, run, sent, got, lost, perr, served,
+    /\ UNCHANGED <<dropped, reqs, c2s, s2c, sq, run, sent, got, lost, perr, served,
                    repseq, bad, unsol>>
 
 \* everything that ends when the connection goes away
@@ -159,6 +167,7 @@ ConnGone(isErr) ==
             /\ waiters' = [sc \in Scopes |-> <<>>]
        ELSE UNCHANGED <<caller, waiters>>
     /\ sq' = IF DropOnGone THEN [sc \in Scopes |-> <<>>] ELSE sq
+    /\ dropped' = IF DropOnGone THEN dropped + NWaiting ELSE dropped
 
 \* a reply arrives at the requester
 DeliverReply ==
@@ -171,7 +180,7 @@ DeliverReply ==
                 /\ IF UnsolFatal
                    THEN ConnGone(TRUE) /\ UNCHANGED <<run, sent, got>>
                    ELSE /\ s2c' = Tail(s2c)
-                        /\ UNCHANGED <<caller, waiters, c2s, sq, run, sent,
+                        /\ UNCHANGED <<dropped, caller, waiters, c2s, sq, run, sent,
                                        got, lost, perr>>
                 /\ lbl' = <<"reply", m.sc, m.id, m.ok, "unsolicited">>
            ELSE LET k == IF Fifo THEN 1 ELSE Len(ws)
@@ -186,7 +195,7 @@ DeliverReply ==
                                           by |-> m.id]]
                                  ELSE caller
                     /\ lbl' = <<"reply", m.sc, m.id, m.ok, w.id>>
-                    /\ UNCHANGED <<c2s, sq, run, sent, got, lost, perr, unsol>>
+                    /\ UNCHANGED <<dropped, c2s, sq, run, sent, got, lost, perr, unsol>>
     /\ UNCHANGED <<reqs, served, repseq, bad>>
 
 (***************************************************************************)
@@ -247,7 +256,7 @@ DeliverRequest ==
                    /\ run' = [run EXCEPT ![sc] = @ \cup d.run]
                    /\ Serve(sc, d, <<>>, FALSE)
            /\ lbl' = <<"dreq", sc, i>>
-    /\ UNCHANGED <<reqs, caller, waiters, sent, got, lost, perr, unsol>>
+    /\ UNCHANGED <<dropped, reqs, caller, waiters, sent, got, lost, perr, unsol>>
 
 \* a slow handler finishes with a result (_report_response and what it
 \* triggers: the following requests are served until the next slow one)
@@ -272,7 +281,7 @@ HandlerCompletes(sc, ok) ==
                         /\ Serve(sc, [q |-> rest, out |-> <<>>, st |-> <<>>,
                                       run |-> {}], pre, isGone)
            /\ lbl' = <<"done", sc, i, ok>>
-    /\ UNCHANGED <<reqs, caller, waiters, c2s, sent, got, lost, perr, unsol>>
+    /\ UNCHANGED <<dropped, reqs, caller, waiters, c2s, sent, got, lost, perr, unsol>>
 
 (***************************************************************************)
 (* Closing                                                                 *)
@@ -288,7 +297,7 @@ CloseChannel(side, ch) ==
        THEN c2s' = Append(c2s, Msg("CLOSE", ch, 0, FALSE)) /\ UNCHANGED s2c
        ELSE s2c' = Append(s2c, Msg("CLOSE", ch, 0, FALSE)) /\ UNCHANGED c2s
     /\ lbl' = <<"close", side, ch>>
-    /\ UNCHANGED <<reqs, caller, waiters, sq, run, got, lost, perr, served,
+    /\ UNCHANGED <<dropped, reqs, caller, waiters, sq, run, got, lost, perr, served,
                    repseq, bad, unsol>>
 
 FailScope(cal, ws) ==
@@ -311,13 +320,15 @@ DeliverClose(side) ==
                  THEN /\ c2s' = Tail(c2s) /\ s2c' = s2c \o reply
                       /\ sq' = IF DropOnGone THEN [sq EXCEPT ![ch] = <<>>]
                                ELSE sq
+                      /\ dropped' = IF DropOnGone
+                                    THEN dropped + NWaitingIn(ch) ELSE dropped
                       /\ UNCHANGED <<caller, waiters>>
                  ELSE /\ s2c' = Tail(s2c) /\ c2s' = c2s \o reply
                       /\ IF CloseResolves
                          THEN /\ caller' = FailScope(caller, waiters[ch])
                               /\ waiters' = [waiters EXCEPT ![ch] = <<>>]
                          ELSE UNCHANGED <<caller, waiters>>
-                      /\ UNCHANGED sq
+                      /\ UNCHANGED <<sq, dropped>>
               /\ lbl' = <<"dclose", side, ch>>
     /\ UNCHANGED <<reqs, run, lost, perr, served, repseq, bad, unsol>>
 
@@ -337,8 +348,8 @@ SendUnsolicited(sc) ==
     /\ unsol = 0 /\ \A k \in 1 .. Len(c2s) : c2s[k].t # "REP"
     /\ c2s' = Append(c2s, Msg("REP", sc, 0, TRUE))
     /\ lbl' = <<"unsol", sc>>
-    /\ UNCHANGED <<reqs, caller, waiters, s2c, sq, run, sent, got, lost, perr,
-                   served, repseq, bad, unsol>>
+    /\ UNCHANGED <<dropped, reqs, caller, waiters, s2c, sq, run, sent, got, lost, perr,
+                   served, repseq, bad, unsol, dropped>>
 
 DeliverUnsolicited ==
     /\ ~lost /\ c2s # <<>> /\ Head(c2s).t = "REP"
@@ -346,7 +357,7 @@ DeliverUnsolicited ==
     /\ IF UnsolFatal
        THEN ConnGone(TRUE) /\ UNCHANGED <<run, sent, got>>
        ELSE /\ c2s' = Tail(c2s)
-            /\ UNCHANGED <<caller, waiters, s2c, sq, run, sent, got, lost, perr>>
+            /\ UNCHANGED <<dropped, caller, waiters, s2c, sq, run, sent, got, lost, perr>>
     /\ lbl' = <<"dunsol", Head(c2s).sc>>
     /\ UNCHANGED <<reqs, served, repseq, bad>>
 
@@ -360,27 +371,31 @@ Proj == [w |-> [sc \in Scopes |-> Len(waiters[sc])],
                                            s2c[k].ok>>],
          served |-> served, lost |-> lost, perr |-> perr]
 
-Acts ==
-    \/ \E sc \in Scopes, want \in WantSet, kind \in KindSet :
-          MakeRequest(sc, want, kind)
-    \/ \E i \in Ids : CancelCaller(i)
-    \/ DeliverRequest
-    \/ \E sc \in Scopes, ok \in BOOLEAN : HandlerCompletes(sc, ok)
-    \/ DeliverReply
-    \/ \E side \in Sides, ch \in Chans : CloseChannel(side, ch)
-    \/ \E side \in Sides : DeliverClose(side)
-    \/ Cut
-    \/ \E sc \in Scopes : SendUnsolicited(sc)
-    \/ DeliverUnsolicited
+\* the history kept for replay: label + projection of the state reached
+Lg == log' = IF KeepLog THEN Append(log, <<lbl', Proj'>>) ELSE log
 
-Next == Acts /\ log' = IF KeepLog THEN Append(log, <<lbl', Proj'>>) ELSE log
+AMake == (\E sc \in Scopes, want \in WantSet, kind \in KindSet :
+             MakeRequest(sc, want, kind)) /\ Lg
+ACancel == (\E i \in Ids : CancelCaller(i)) /\ Lg
+ADeliverRequest == DeliverRequest /\ Lg
+AHandlerCompletes == (\E sc \in Scopes, ok \in BOOLEAN :
+                         HandlerCompletes(sc, ok)) /\ Lg
+ADeliverReply == DeliverReply /\ Lg
+ACloseChannel == (\E side \in Sides, ch \in Chans : CloseChannel(side, ch))
+                    /\ Lg
+ADeliverClose == (\E side \in Sides : DeliverClose(side)) /\ Lg
+ACut == Cut /\ Lg
+ASendUnsolicited == (\E sc \in Scopes : SendUnsolicited(sc)) /\ Lg
+ADeliverUnsolicited == DeliverUnsolicited /\ Lg
+
+Next == \/ AMake \/ ACancel \/ ADeliverRequest \/ AHandlerCompletes
+        \/ ADeliverReply \/ ACloseChannel \/ ADeliverClose \/ ACut
+        \/ ASendUnsolicited \/ ADeliverUnsolicited
 
 Spec == Init /\ [][Next]_vars
-FairSpec == Spec /\ WF_vars(DeliverRequest) /\ WF_vars(DeliverReply)
-                 /\ WF_vars(\E side \in Sides : DeliverClose(side))
-                 /\ WF_vars(DeliverUnsolicited)
-                 /\ WF_vars(\E sc \in Scopes, ok \in BOOLEAN :
-                               HandlerCompletes(sc, ok))
+FairSpec == Spec /\ WF_vars(ADeliverRequest) /\ WF_vars(ADeliverReply)
+                 /\ WF_vars(ADeliverClose) /\ WF_vars(ADeliverUnsolicited)
+                 /\ WF_vars(AHandlerCompletes)
 
 (***************************************************************************)
 (* Properties                                                              *)
